@@ -12,6 +12,7 @@ import (
 	"os"
 	"os/exec"
 	"path/filepath"
+	"regexp"
 	"sort"
 	"strconv"
 	"strings"
@@ -261,9 +262,37 @@ func qShowValue(v interface{}) string {
 	case int:
 		return fmt.Sprintf("boxed:%d", v)
 	case error:
-		return "err:" + hx.HexS(v.Error())
+		return qShowError(v)
 	}
 	return fmt.Sprintf("other:%T", v)
+}
+
+// qShowError writes an error value the way the model and the reference semantics do: the errors a function of the
+// accepted subset can hold come from strconv.Atoi, and are identified by their class (1 = syntax, 2 = out of range)
+// and the operand; any other error is shown by its text.
+func qShowError(e error) string {
+	if ne, ok := e.(*strconv.NumError); ok && ne.Func == "Atoi" {
+		switch ne.Err {
+		case strconv.ErrSyntax:
+			return "err:1:" + hx.HexS(ne.Num)
+		case strconv.ErrRange:
+			return "err:2:" + hx.HexS(ne.Num)
+		}
+	}
+	return "err:?:" + hx.HexS(e.Error())
+}
+
+// qPlainParams: every parameter is an int, a string or a bool (the argument values the property quantifies over).
+// A function with an object parameter (error, interface) is only reached through its callers.
+func qPlainParams(sig *types.Signature) bool {
+	for i := 0; i < sig.Params().Len(); i++ {
+		switch qTyS(sig.Params().At(i).Type()) {
+		case "int", "str", "bool":
+		default:
+			return false
+		}
+	}
+	return true
 }
 
 // qCallReal runs quasigo.Call on one argument tuple.
@@ -303,6 +332,9 @@ func qCallReal(ee *quasigo.EvalEnv, fn *quasigo.Func, sig *types.Signature, args
 func qGenTuples(c *qCase, r *rand.Rand, nTuples int) []qItem {
 	var items []qItem
 	for i := range c.funcs {
+		if !qPlainParams(c.sigs[i]) {
+			continue
+		}
 		var ts []string
 		var as [][]interface{}
 		for k := 0; k < nTuples; k++ {
@@ -607,7 +639,15 @@ func runC04(c *Ctx) error {
 		"process with a deadline as step bound and a memory cap) == model eval on %d argument tuples per function (op qeval); functions whose bytes or "+
 		"answers differ from the model's, their callers and a sample of the others are run again over a structured argument set (boundary ints, all bool "+
 		"combinations, strings of several lengths: suite eval-wide); every answer is judged by the reference semantics and go run; "+
-		"a case is non-trivial when the function has a branch, loop or call; distinct by (program source, function, arguments)", nProg, nTuples)
+		"a case is non-trivial when the function has a branch, loop or call; distinct by (program source, function, arguments).  "+
+		"Focus stream (c04_focus.go): programs around nil object results between user functions (error / interface{} results compared with nil, "+
+		"stored, formatted, passed on, returned again), the blank identifier in := and = forms with parameters and locals read afterwards, and the "+
+		"natives at their corners (fmt.Sprintf over every verb/flag/width/index form with 0-4 unrelated operands incl. error operands and formats "+
+		"taken from parameters; strings.Replace count classes; strconv at the ends of the int range), run on arguments from a domain of numeric and "+
+		"format strings (suite eval-focus); where the reference semantics does not model a native call, quasigo.Call is compared with go run of the "+
+		"same source directly (suite go-direct).  Part 2 (c04_natives.go, c04_api.go): hand-written mirrors on two targets (capture classes; defined "+
+		"types over every kind of underlying type, aliases, pointers/slices/arrays of them), generated straight-line filters over the dsl/types API "+
+		"against the same walk made with go/types, Do functions with several DoVar values alive in every read order", nProg, nTuples)
 
 	rng := hx.Rng(c.Seed, "c04-programs")
 	argRng := hx.Rng(c.Seed, "c04-args")
@@ -669,6 +709,35 @@ func runC04(c *Ctx) error {
 		stressArgs[qc] = args
 		res.Dist("gen:stress-program")
 	}
+	// focus stream: nil object results between user functions, the blank identifier, the natives at their corners
+	focus := map[*qCase]bool{}
+	nFocus, nFocusTuples := 60, 12
+	if c.Thorough {
+		nFocus, nFocusTuples = 900, 16
+	}
+	if os.Getenv("C04_SRC") != "" {
+		nFocus = 0
+	}
+	focusRng := hx.Rng(c.Seed, "c04-focus")
+	for i := 0; i < nFocus; i++ {
+		p := genFocusProgram(focusRng, fmt.Sprintf("fo%d_", i), feat)
+		qc, err := qBuild(2000000+i, p, focusRng)
+		if err != nil {
+			return fmt.Errorf("focus program rejected by go/types: %v\n%s", err, p.file("qprog"))
+		}
+		cases = append(cases, qc)
+		focus[qc] = true
+		res.Dist("gen:focus-program")
+		// a focus program is meant to compile up to its (deliberately rejected) last function: anything else is counted
+		st := strings.Fields(qc.compile)[0]
+		early := st != "ok" && (len(qc.funcs) < len(qc.decls)-1 || !strings.Contains(qc.decls[len(qc.decls)-1].Name.Name, "_z"))
+		if early {
+			res.Dist("focus:program-not-compiled-to-its-end:" + st)
+		}
+		if show := os.Getenv("C04_FOCUS_SHOW"); show == "all" || (show != "" && early) {
+			fmt.Fprintf(os.Stderr, "C04_FOCUS_SHOW %s: compiled %d of %d\n%s\n", st, len(qc.funcs), len(qc.decls), qc.file) // debugging aid
+		}
+	}
 	for k, v := range feat {
 		res.Distribution["gen:"+k] = v
 	}
@@ -723,8 +792,24 @@ func runC04(c *Ctx) error {
 		return err
 	}
 	defer rr.Close()
-	var items []qItem
+	var items, focusItems []qItem
 	for _, qc := range cases {
+		if focus[qc] {
+			// arguments from the focus domain (numeric strings, format strings, the ends of the int range)
+			for fi := range qc.funcs {
+				if !qPlainParams(qc.sigs[fi]) {
+					res.Dist("focus:function-with-object-parameter(reached through its callers)")
+					continue
+				}
+				ts, as := focusTuples(qc.sigs[fi], focusRng, nFocusTuples)
+				lo, hi := qc.addTuples(fi, ts, as)
+				qc.wideFrom[fi] = hi
+				if hi > lo {
+					focusItems = append(focusItems, qItem{qc, fi, lo, hi})
+				}
+			}
+			continue
+		}
 		if sa, ok := stressArgs[qc]; ok {
 			// fixed arguments around the encoding limit for the first function, drawn ones for the others
 			for fi := range qc.funcs {
@@ -781,6 +866,9 @@ func runC04(c *Ctx) error {
 	if err := c04EvalItems(c, rr, items, "eval", bytesDiffer); err != nil {
 		return err
 	}
+	if err := c04EvalItems(c, rr, focusItems, "eval-focus", bytesDiffer); err != nil {
+		return err
+	}
 	// suite 2w: the wide argument search
 	if err := c04Wide(c, rr, cases, stressArgs, bytesDiffer); err != nil {
 		return err
@@ -819,6 +907,9 @@ type qPoint struct {
 	impl string
 	spec string
 	wide bool // the tuple comes from the wide argument search
+	// direct: the reference semantics has no opinion (a native call outside its fragment: "unsup"); the call's
+	// answer is compared with `go run` of the same source directly (suite go-direct)
+	direct bool
 }
 
 func c04Spec(c *Ctx, cases []*qCase, nTuples int) error {
@@ -828,7 +919,11 @@ func c04Spec(c *Ctx, cases []*qCase, nTuples int) error {
 	var refs []ref
 	for ci, qc := range cases {
 		if strings.HasPrefix(qc.compile, "panic") {
-			res.Violate(hx.Violation{Signature: "compile:" + strings.Join(strings.Fields(qc.compile)[:2], "-") + ":native-arg-call-without-signature",
+			class := "native-arg-call-without-signature"
+			if k := len(qc.funcs); k < len(qc.decls) && qBlankAssign.MatchString(qc.file[qc.offsets[k][0]:qc.offsets[k][1]]) {
+				class = "blank-identifier-assignment"
+			}
+			res.Violate(hx.Violation{Signature: "compile:" + strings.Join(strings.Fields(qc.compile)[:2], "-") + ":" + class,
 				What:  "quasigo.Compile panics (instead of returning an error or compiling) on a function go/types accepts",
 				Input: map[string]interface{}{"source": qc.file, "func": len(qc.funcs)}, Impl: strings.Join(strings.Fields(qc.compile)[:3], " "), Spec: "compiles or is rejected with an error"})
 		}
@@ -859,11 +954,21 @@ func c04Spec(c *Ctx, cases []*qCase, nTuples int) error {
 		for k, s := range spec {
 			res.Count("spec", fmt.Sprintf("%d/%d/%s", qc.id, fi, qc.tuples[fi][k]), true)
 			wide := k >= qc.wideFrom[fi]
+			im := qc.evals[fi][k]
 			if s == "fuel" || s == "unsup" || s == "stuck" {
 				res.Dist("spec:skipped-" + s)
+				// a native call the reference semantics does not model (a format verb, an operand count, an error operand):
+				// the function still means something in Go, and `go run` says what
+				// ("stuck": a form outside the reference semantics that the compiler nevertheless accepted)
+				if (s == "unsup" || s == "stuck") && im != "" && im != "not-run" && im != "skipped" {
+					if qOrPopPossible(qc) {
+						res.Dist("go-direct:not-compared:program-has-||-or-&&(open finding orPop)")
+					} else {
+						points = append(points, qPoint{c: qc, f: fi, k: k, impl: im, spec: s, wide: wide, direct: true})
+					}
+				}
 				continue
 			}
-			im := qc.evals[fi][k]
 			if im == "not-run" {
 				res.Dist("spec:not-run-after-timeout")
 				continue
@@ -1078,6 +1183,32 @@ func c04Spec(c *Ctx, cases []*qCase, nTuples int) error {
 	return nil
 }
 
+type qDirectBad struct {
+	size int
+	v    hx.Violation
+}
+
+// qBodySrc is the program text without the package clause and the imports (the generated main has its own).
+func qBodySrc(c *qCase) string {
+	if c.prog.Raw == "" {
+		return c.prog.Src
+	}
+	if i := strings.Index(c.prog.Raw, "\nfunc "); i >= 0 {
+		return c.prog.Raw[i+1:]
+	}
+	return c.prog.Raw
+}
+
+// qOrPopPossible: the program uses `||` or `&&` while the repair of the open finding orPop is not in the code.  A wrong
+// answer of such a program can only be attributed to the finding by the model, which has no opinion where the
+// reference semantics has none; the direct comparison with `go run` leaves these programs out.
+func qOrPopPossible(c *qCase) bool {
+	return c04Fixes[2] == '0' && (strings.Contains(c.file, "||") || strings.Contains(c.file, "&&"))
+}
+
+// qBlankAssign: a statement `_ = e` (an assignment, not a definition, to the blank identifier).
+var qBlankAssign = regexp.MustCompile(`(?m)^\s*_ = `)
+
 var c04FixNames = []string{"frame", "ifJump", "orPop", "range", "shadow", "forClause", "assignOp", "ifInit", "argSig"}
 
 // qSubsets lists the subsets of xs with k elements, in lexicographic order.
@@ -1189,6 +1320,18 @@ func sh(v interface{}) string {
 			return "bool:1"
 		}
 		return "bool:0"
+	case nil:
+		return "nil"
+	case error:
+		if ne, ok := v.(*strconv.NumError); ok && ne.Func == "Atoi" {
+			if ne.Err == strconv.ErrSyntax {
+				return "err:1:" + hx(ne.Num)
+			}
+			if ne.Err == strconv.ErrRange {
+				return "err:2:" + hx(ne.Num)
+			}
+		}
+		return "err:?:" + hx(v.Error())
 	}
 	return "?"
 }
@@ -1235,7 +1378,7 @@ func c04GoRun(c *Ctx, points []qPoint) error {
 				cur = &batch{seen: map[*qCase]bool{}}
 			}
 			cur.seen[p.c] = true
-			cur.src.WriteString(p.c.prog.Src)
+			cur.src.WriteString(qBodySrc(p.c))
 			cur.src.WriteString("\n")
 		}
 		var args []string
@@ -1316,7 +1459,37 @@ func c04GoRun(c *Ctx, points []qPoint) error {
 	if firstErr != nil {
 		return firstErr
 	}
+	nDirect := 0
+	var directBad []qDirectBad
+	defer func() {
+		// the witness of a signature is the smallest function (and shortest argument tuple) that shows it
+		sort.SliceStable(directBad, func(i, j int) bool { return directBad[i].size < directBad[j].size })
+		for _, b := range directBad {
+			res.Violate(b.v)
+		}
+	}()
 	for i, p := range points {
+		if p.direct {
+			// the property's own right-hand side: the same function compiled by the Go toolchain
+			nDirect++
+			res.Count("go-direct", fmt.Sprintf("%d/%d/%s", p.c.id, p.f, p.c.tuples[p.f][p.k]), true)
+			in := map[string]interface{}{"source": p.c.file, "func": p.c.decls[p.f].Name.Name, "args": p.c.tuples[p.f][p.k],
+				"model": p.c.model[p.f][p.k], "found_by": "go run of the same source (the reference semantics does not model a native call made here)"}
+			switch {
+			case got[i] == "":
+				res.Disagree(hx.Disagreement{Suite: "go-direct", Op: "go run " + p.c.decls[p.f].Name.Name + " " + p.c.tuples[p.f][p.k],
+					Impl: p.impl, Model: "go run printed nothing for this call", Input: in})
+			case got[i] != p.impl:
+				sig, what := qDeviationKind(p.impl, got[i])
+				res.Dist("go-direct:call-differs")
+				directBad = append(directBad, qDirectBad{size: p.c.declEnd(p.f) - p.c.declOffset(p.f) + len(p.c.tuples[p.f][p.k]),
+					v: hx.Violation{Signature: "go-direct:" + sig, What: what + " (compared with `go run` of the same source)", Input: in, Impl: p.impl, Spec: got[i]}})
+			default:
+				res.Dist("go-direct:call-agrees")
+				res.Dist("go-direct:" + strings.SplitN(got[i], ":", 2)[0])
+			}
+			continue
+		}
 		res.Count("spec-vs-go", fmt.Sprintf("%d/%d/%s", p.c.id, p.f, p.c.tuples[p.f][p.k]), true)
 		if got[i] != p.spec {
 			res.Disagree(hx.Disagreement{Suite: "spec-vs-go", Op: fmt.Sprintf("qsrc %d %d %s <prog>", c04Fuel, p.f, p.c.tuples[p.f][p.k]),
@@ -1324,6 +1497,6 @@ func c04GoRun(c *Ctx, points []qPoint) error {
 				Input: map[string]interface{}{"source": p.c.file, "func": p.c.decls[p.f].Name.Name, "args": p.c.tuples[p.f][p.k]}})
 		}
 	}
-	res.Notes = append(res.Notes, fmt.Sprintf("go run: %d batch(es), %d calls compared with the reference semantics", len(batches), len(points)))
+	res.Notes = append(res.Notes, fmt.Sprintf("go run: %d batch(es), %d calls compared with the reference semantics, %d calls of quasigo.Call compared with go run directly", len(batches), len(points)-nDirect, nDirect))
 	return nil
 }
